@@ -176,11 +176,13 @@ def parseCondition (fuel : Nat) : P (Option Expr) := do
     let e ← parseExpr fuel
     pure (some e)
 
-/-- `Parser.parseDimension()`: a regex dimension returns before the trailing whitespace is consumed. -/
+/-- `Parser.parseDimension()`: after a regex dimension the next significant token is scanned
+(skipping whitespace and comments) and pushed back. -/
 def parseDimension (fuel : Nat) : P Expr := do
   match ← parseRegex with
   | some re =>
-    consumeWhitespace
+    let _ ← scanIW
+    unscan
     pure re
   | none =>
     let e ← parseExpr fuel
